@@ -148,6 +148,7 @@ func shortName(s string) string {
 func (c *FnCtx) callFunction(p *Path, fn *ssa.Function, args []Val, binds []Val, pos token.Pos) []outcome {
 	name := fullName(fn)
 	resT := fn.Signature.Results()
+	c.runGhostAt(p, "before:"+fn.Name())
 	if outs, ok := c.special(p, fn, name, args); ok {
 		return outs
 	}
@@ -159,7 +160,13 @@ func (c *FnCtx) callFunction(p *Path, fn *ssa.Function, args []Val, binds []Val,
 	if helios {
 		fc := c.eng.contractOf(fn)
 		if fc != nil && !fc.Inline {
-			return c.applyContract(p, fc, fn, append(append([]Val{}, args...), binds...), resT, relName(fn), pos)
+			outs := c.applyContract(p, fc, fn, append(append([]Val{}, args...), binds...), resT, relName(fn), pos)
+			for _, o := range outs {
+				if !o.panic {
+					c.runGhostAt(o.p, "after:"+fn.Name())
+				}
+			}
+			return outs
 		}
 		// closures defined in the function under verification, and small leaf helpers, are executed in place
 		if fc != nil && fc.Inline || c.eng.inlinable(fn, c.fn) {
@@ -175,7 +182,21 @@ func (c *FnCtx) callFunction(p *Path, fn *ssa.Function, args []Val, binds []Val,
 	// external
 	if fc := c.eng.lookupSpec(name); fc != nil {
 		c.trusted[name] = true
-		return c.applyContract(p, fc, nil, args, resT, name, pos)
+		var ao *AtomicObj
+		var aoOld HeapView
+		if c.mode == "mon" && len(args) > 0 && args[0].K == KPtr && args[0].Key != "" {
+			if ao = c.atomicFor(args[0].Key); ao != nil {
+				c.atomicInterfere(p, ao, args[0])
+				aoOld = p.heap.clone()
+			}
+		}
+		outs := c.applyContract(p, fc, nil, args, resT, name, pos)
+		if ao != nil {
+			for _, o := range outs {
+				c.atomicCheck(o.p, ao, args[0], &aoOld, shortName(name))
+			}
+		}
+		return outs
 	}
 	c.defaults[name] = true
 	return c.defaultCall(p, resT, name)
@@ -424,7 +445,7 @@ func (c *FnCtx) tick(p *Path) string {
 	if p.now != "" {
 		p.assume(fmt.Sprintf("(>= %s %s)", t, p.now))
 	}
-	p.assume(fmt.Sprintf("(>= %s 0)", t))
+	p.assume(fmt.Sprintf("(and (>= %s 0) (<= %s 4611686018427387904))", t, t))
 	p.now = t
 	return t
 }
@@ -446,16 +467,12 @@ func (c *FnCtx) lockOp(p *Path, m Val, mode int, acquire bool) {
 		p.assume(fmt.Sprintf("(= %s 0)", cur))
 		p.heap.m[key] = fmt.Sprintf("(store %s %s %d)", arr, m.T, mode)
 		p.held = append(p.held, key)
-		if c.mode == "mon" {
-			c.monitorAcquire(p, key, m)
-		}
+		c.monitorAcquire(p, key, m)
 		return
 	}
 	c.oblige(p, "lock", "unlock_held_"+shortKey(key), fmt.Sprintf("(= %s %d)", cur, mode), "releasing "+key+" in the mode it is held", nil)
 	p.assume(fmt.Sprintf("(= %s %d)", cur, mode))
-	if c.mode == "mon" {
-		c.monitorRelease(p, key, m, mode)
-	}
+	c.monitorRelease(p, key, m, mode)
 	arr = c.heapGet(&p.heap, key, "Int")
 	p.heap.m[key] = fmt.Sprintf("(store %s %s 0)", arr, m.T)
 }
@@ -520,5 +537,49 @@ func (c *FnCtx) permCheck(p *Path, ptr Val, write bool, pos token.Pos) {
 				c.oblige(p, "perm", label, g, acc+" of "+pol.key+" requires "+gk, pol.Props)
 			}
 		}
+	}
+}
+
+// ---------- internally synchronised shared objects (sync.Map) under interference ----------
+
+func (c *FnCtx) atomicFor(key string) *AtomicObj {
+	for _, a := range c.eng.cs.Atomics {
+		if c.eng.qualType(a.Pkg, a.Type)+"."+a.Field == key {
+			return a
+		}
+	}
+	return nil
+}
+
+func (c *FnCtx) atomicSelf(ao *AtomicObj, obj Val) (map[string]Val, *types.Package) {
+	pkg := c.eng.pkgByDir(ao.Pkg)
+	self := Val{K: KPtr, T: obj.T, Typ: types.NewPointer(c.eng.parseType(pkg, ao.Type))}
+	return map[string]Val{ao.Self: self}, pkg
+}
+
+// atomicInterfere: other threads may have operated on the object since this thread last looked.
+func (c *FnCtx) atomicInterfere(p *Path, ao *AtomicObj, obj Val) {
+	for _, st := range ao.State {
+		c.havoc(&p.heap, obj.Key+".$"+st, obj.T)
+	}
+	env, pkg := c.atomicSelf(ao, obj)
+	ec := &EvalCtx{c: c, p: p, env: env, heap: &p.heap, pkg: pkg}
+	for _, cl := range ao.Inv {
+		if t, ok := c.evalClause(ec, cl, "atomic inv"); ok {
+			p.assume(t)
+		}
+	}
+}
+
+func (c *FnCtx) atomicCheck(p *Path, ao *AtomicObj, obj Val, old *HeapView, op string) {
+	env, pkg := c.atomicSelf(ao, obj)
+	ec := &EvalCtx{c: c, p: p, env: env, heap: &p.heap, old: old, pkg: pkg}
+	for i, cl := range ao.Inv {
+		t, _ := c.evalClause(ec, cl, "atomic inv")
+		c.oblige(p, "atomic_inv", ao.Field+"."+op+"."+clauseLabel(cl, i, "inv"), t, cl.Src, nil)
+	}
+	for i, cl := range ao.Guar {
+		t, _ := c.evalClause(ec, cl, "atomic guarantee")
+		c.oblige(p, "guarantee", ao.Field+"."+op+"."+clauseLabel(cl, i, "guar"), t, cl.Src, nil)
 	}
 }
